@@ -293,6 +293,34 @@ func newSessionFromTemplate() *Session {
 func (i *IRCServer) createSessionLocked(id robust.Id, auth string, timestamp time.Time) error {""")],
     [(IRC + ":newSessionFromTemplate", "ircserver.sessionTemplate", "global-alias")])
 
+M["i01-status-page-reevaluates-the-instance"] = ("handleStatus calls api.ircServer() again for the lock, the unlock and the Config it reads (D24)", [
+    ("internal/api/status.go", """	i := api.ircServer()
+	sessions := i.GetSessions()
+	i.ConfigMu.RLock()
+	defer i.ConfigMu.RUnlock()""", """	sessions := api.ircServer().GetSessions()
+	api.ircServer().ConfigMu.RLock()
+	defer api.ircServer().ConfigMu.RUnlock()"""),
+    ("internal/api/status.go", """		NetConfig:          i.Config,""", """		NetConfig:          api.ircServer().Config,""")],
+    [("internal/api/status.go:HTTP.handleStatus", "RLock of IRCServer.ConfigMu on the result of a call to api.ircServer()", "instance-mismatch"),
+     ("internal/api/status.go:HTTP.handleStatus", "RUnlock of IRCServer.ConfigMu on the result of a call to api.ircServer()", "instance-mismatch"),
+     ("internal/api/status.go:HTTP.handleStatus", "access to IRCServer.ConfigMu under a locally held lock through the result of a call to api.ircServer()", "instance-mismatch"),
+     ("internal/api/status.go:HTTP.handleStatus", "access to IRCServer.Config under a locally held lock through the result of a call to api.ircServer()", "instance-mismatch")])
+
+M["i02-locked-instance-but-access-through-accessor"] = ("configRevision locks the instance it fetched but reads the revision through a second api.ircServer()", [
+    ("internal/api/postconfig.go", """	defer i.ConfigMu.RUnlock()
+	return i.Config.Revision""", """	defer i.ConfigMu.RUnlock()
+	return api.ircServer().Config.Revision""")],
+    [("internal/api/postconfig.go:HTTP.configRevision", "access to IRCServer.Config under a locally held lock through the result of a call to api.ircServer()", "instance-mismatch")])
+
+M["i03-metrics-closure-locks-the-global"] = ("the expiry loop of main() locks ConfigMu of the package-level ircServer directly", [
+    ("robustirc.go", """			for _, msg := range currentIRCServer().ExpireSessions() {""", """			ircServer.ConfigMu.RLock()
+			ircServer.ConfigMu.RUnlock()
+			for _, msg := range currentIRCServer().ExpireSessions() {""")],
+    [("robustirc.go:main", "RLock of IRCServer.ConfigMu on the package-level variable main.ircServer", "instance-mismatch"),
+     ("robustirc.go:main", "RUnlock of IRCServer.ConfigMu on the package-level variable main.ircServer", "instance-mismatch"),
+     ("robustirc.go:main", "access to IRCServer.ConfigMu under a locally held lock through the package-level variable main.ircServer", "instance-mismatch"),
+     ("robustirc.go:main", "main.ircServer", "R")])
+
 # ---- negative controls: behaviour-preserving refactorings must not be flagged
 M["n01-explicit-unlock"] = ("NumSessions with explicit RUnlock instead of defer", [
     (IRC, """	i.sessionsMu.RLock()
